@@ -11,7 +11,9 @@ NOTE_COMMON = ('Trusted: Coq 8.16.1 kernel + vm_compute (no native_compute, no a
                'covered by the parametric theorems over the hand-written generator model (Gen.v/GenCorrect.v, Parse.v, Enum.v, '
                'Builder.v, Surface.v) as far as that model mirrors the code: it is compared with the real expansion on every run '
                '(semantic obligations, verdicts, surface equality; term-for-term agreement of Gen.v is reported: 100% on the '
-               'unchanged tree). Axioms: none (Print Assumptions closed for every property theorem; coqchk -o: Axioms <none>).')
+               'unchanged tree); the arithmetic and table look-up functions of the macro (type widths, storage classes, the numeric '
+               'checks and the argument closure of parse_field, the attribute automaton, the bitenum count checks) are in addition '
+               'translated from bitbybit/src on every run and PROVED equal to the model for every argument (DESIGN 3.7). Axioms: none (Print Assumptions closed for every property theorem; coqchk -o: Axioms <none>).')
 
 CLAIMED = {
     'C01': ('Reflective proof: the real getter body of every corpus declaration is translated to a Coq term and checked by a verified '
@@ -37,9 +39,13 @@ CLAIMED = {
             'bits reach T::new_with_raw_value and exactly T::raw_value() is scattered.', '4 C08'),
     'C09': ('C09_accept_iff_valid: the model of parse_field (Parse.v) accepts exactly the documented rule valid_decl (Spec.v), for all '
             'declarations; tied to the code by comparing rustc\'s verdict, the model and the rule on a valid stream and a one-violation-per-'
-            'declaration invalid stream (both directions), every run.', '4 C09'),
+            'declaration invalid stream (both directions), every run; the numeric checks of parse_field, its argument closure, the '
+            'attribute automaton and the type-width functions are translated from the source each run and proved equal to the model '
+            'for every input (accept_field_region, src_agrees).', '4 C09'),
     'C10': ('C10_enum_accept_iff_valid, C10_exhaustive_claims_are_sound (pigeonhole), C10_no_variant_is_unrepresentable over the model of '
-            'bitenum.rs; verdict correspondence in both directions on an enumerated boundary corpus; per-enum obligations on the real match.', '4 C10'),
+            'bitenum.rs; verdict correspondence in both directions on an enumerated boundary corpus; per-enum obligations on the real match; '
+            'the count / exhaustive-claim checks and Exhaustive::matches are translated from the source each run and proved equal to the '
+            'model (enum_accept_region).', '4 C10'),
     'C11': ('Invariant by induction over arbitrary histories on the REAL bodies: C12_real_code_any_history (no panic, state = abstract '
             'register, state < 2^N) and C11_rewrap_is_identity_on_reachable_states; the per-run kernel-checked obligations are the '
             'hypotheses (C12_run_obligations_give_setters_ok).', '4 C11'),
